@@ -27,6 +27,7 @@ LEVEL_NOTE = rk.LEVEL_NOTE + " The engine model built on the same scan definitio
 def streams(rng, tier, seed):
     n = 100 if tier == "quick" else 3000
     progs = [ec.gen_flat(rng, sched=(i % 3 == 0)) for i in range(n)] + [ec.gen_nested(rng, both=True) for _ in range(n // 2)]
+    progs += [ec.gen_kick(rng) for _ in range(n // 2)]      # a node waking other nodes of its graph for the current time (behind / ahead of the scan)
     return rk.streams(rng, tier, seed) + [ec.engine_stream("engine-order", progs)]
 
 
